@@ -1056,3 +1056,30 @@ Definition res_eqb (a : res) (b : res) : bool :=
   | RSkip, RSkip | RErr, RErr => true
   | _, _ => false
   end.
+
+(* ------------------------------------------------------------------ example graphs (non-vacuity) *)
+Definition ex_arr : arr := mkArr "float32" [2; 3]%Z (AOpaque 77).
+Definition ex_fields_common : list (string * value) :=
+  [("n", VNone); ("b", VBool true); ("i", VInt 7); ("f", VFloat 4607182418800017408);
+   ("s", VStr "hello"); ("p", VPath "/a/b"); ("np", VNpScalar "int16" (NInt 3));
+   ("a", VArr ex_arr); ("a0", VArr (mkArr "int8" [] (AOpaque 5))); ("ae", VArr (mkArr "float64" [0; 3]%Z (AOpaque 0)));
+   ("t", VBlob BTensor ["torch.Tensor"; "torch._C.TensorBase"]
+               [("_tensor_shape", JList [JInt 2]); ("_tensor_dtype", JStr "torch.float32");
+                ("_tensor_device", JStr "cpu"); ("_tensor_requires_grad", JBool true)] 11);
+   ("o", VBlob BOptimizer ["torch.optim.adam.Adam"; "torch.optim.optimizer.Optimizer"] [("class_name", JStr "Adam")] 12);
+   ("sch", VBlob BScheduler ["torch.optim.lr_scheduler.StepLR"] [("class_name", JStr "StepLR")] 13);
+   ("m", VBlob BModule ["torch.nn.modules.linear.Linear"; "torch.nn.modules.module.Module"] [] 14);
+   ("lg", VLogger "Logger" "c01" 20);
+   ("r", VRng "PCG64" (JOpaque 1));
+   ("l", VList [VInt 1; VStr "x"; VTuple [VPath "q"; VDict [("k", VSet [VInt 1; VFloat 4609434218613702656])]]]);
+   ("nl", VList [VBool true; VInt 2; VNpScalar "float32" (NFloat 4602678819172646912)]);
+   ("sub", VObj "harness.c01_classes" "NodeB"
+                [("x", VInt 1); ("a", VArr ex_arr);
+                 ("sub", VObj "harness.c01_classes" "NodeC" [("w", VTuple []); ("x", VStr "deep")])]);
+   ("z", VOther ["builtins.complex"] 99)].
+(* every constructor, depth 3, objects reached through attributes only (C14's quantifier) *)
+Definition ex_graph_attr : value := VObj "harness.c01_classes" "NodeA" ex_fields_common.
+(* the same plus an object inside a dict inside the root *)
+Definition ex_graph : value :=
+  VObj "harness.c01_classes" "NodeA"
+       (ex_fields_common ++ [("d", VDict [("0", VObj "harness.c01_classes" "NodeB" [("x", VArr ex_arr); ("y", VList [])])])]).
